@@ -538,6 +538,13 @@ func (env *SpecEnv) evalBinary(e *Expr) TV {
 			t = env.contentEq(fa, fb)
 		} else if oka != okb {
 			sfail("bytes(..) compared with a non-content value: %s", e)
+		} else if ia, okA := a.V.(IfaceV); okA && isIfaceT(a.T) && isIfaceT(b.T) {
+			// two interface values of different static interface types (error vs any)
+			ib, okB := b.V.(IfaceV)
+			if !okB {
+				sfail("mismatched types in %s: %s vs %s", e, a.T, b.T)
+			}
+			t = and(eq(ia.Tag, ib.Tag), eq(ia.Ref, ib.Ref))
 		} else if ia, pb, ok := ifaceAndPointer(a, b); ok {
 			// an interface value compared with a pointer: same dynamic type and same object
 			// (a nil pointer in an interface is not the nil interface, as in Go)
@@ -1213,4 +1220,12 @@ func ifaceAndPointer(a, b TV) (IfaceV, TV, bool) {
 		return iv, p, true
 	}
 	return pick(b, a)
+}
+
+func isIfaceT(t types.Type) bool {
+	if t == nil {
+		return false
+	}
+	_, ok := t.Underlying().(*types.Interface)
+	return ok
 }
